@@ -595,6 +595,9 @@ def run(ck: Check) -> int:
         functions_interpreted(ck, eng)
         ck.evaluate(('S-shape', sh[0], idx), sample={'shape': sh} if idx in (3, len(shapes) - 1) else None)
 
+    # ---- induction step over opaque children (unbounded depth)
+    from props.C05_step import run_step
+    run_step(ck)
     # ---- R
     run_R(ck, F)
     return ck.finish('other',
@@ -602,8 +605,10 @@ def run(ck: Check) -> int:
                      'unforge_int decodes every canonical prefix and rejects trailing-zero groups; tag arithmetic; '
                      'forge_array/unforge_array inverse + truncation. S (bounded shapes, all leaf values in the stated classes): '
                      'forge_micheline == Tezos grammar encoder and unforge∘forge == id. R (bounded): big trees, injectivity, '
-                     'decoder strictness on mutated encodings. The recursive parser unforge_micheline (closures over nonlocal ptr) '
-                     'is NOT proved for unbounded trees.')
+                     'decoder strictness on mutated encodings. Induction step (props/C05_step.py): forge_micheline / unforge_micheline on a primitive '
+                     'application (k <= 4 arguments, with/without annotations) or sequence (k <= 3) of OPAQUE children under the codec contract at the '
+                     'recursive calls: Tezos layout and unforge∘forge identity with the read pointer ending exactly at the end — any depth, any child '
+                     'encodings; the arity is bounded in the step (S).')
 
 
 def _report_with_kind(ck, eng, reps, kind, kind_label='P', shape=None):
